@@ -294,6 +294,8 @@ class GridWeighted(Grid):
             self._weights = [float(val) for val in value]
         else:
             raise TypeError("The input should be a list, tuple or a single int, float value")
+        # The weighted grid points depend on the weights: invalidate the cache
+        self._cache['gridptsw'][:] = []
 
     def reset(self):
         """ Resets the grid. """
@@ -317,11 +319,13 @@ class GridWeighted(Grid):
 
         # Start adding weights, if not cached
         if not self._cache['gridptsw']:
-            for idx, cols in enumerate(self._grid_points):
+            for idx_u, cols in enumerate(self._grid_points):
                 weighted_gp_row = []
-                for row in cols:
-                    temp = [r * self._weights[idx] for r in row]
-                    temp.append(self._weights[idx])
+                for idx_v, row in enumerate(cols):
+                    # Each grid point has its own weight (v index changes the fastest)
+                    wgt = self._weights[idx_v + (idx_u * len(cols))]
+                    temp = [r * wgt for r in row]
+                    temp.append(wgt)
                     weighted_gp_row.append(temp)
                 self._cache['gridptsw'].append(weighted_gp_row)
 
